@@ -37,6 +37,8 @@ def weight(job):
         return {2: 3, 3: 40, 4: 300, 5: 900}.get(job['N'], 1000)
     if job.get('kind') == 'custom' and job.get('func') == 'run_history_job':
         return {1: 0.3, 2: 3, 3: 12, 4: 80}.get(job['N'], 500) * (4 if job.get('final_ops') else 1) * (8 if job.get('final_ops') and job['N'] >= 3 else 1)
+    if job.get('kind') == 'custom' and job.get('module') == 'pretty' and job.get('family'):
+        return {5: 30, 6: 60}.get(job['N'], 500)
     if job.get('kind') == 'custom' and job.get('module') == 'pretty':
         return {1: 0.1, 2: 3, 3: 30, 4: 400}.get(job['N'], 1000)
     if job.get('kind') == 'custom' and job.get('module') in ('values', 'lookups'):
@@ -188,6 +190,8 @@ def c17_jobs(prop, tier):
             common = {'cfg': cfg, 'feat': 'std', 'base': list(b), 'other': list(o), 'needs': [list(b), list(o)], 'props': [prop]}
             jobs.append(dict(common, kind='c17_id', name='mir_identity_std_vs_' + feat, op='mir_identity_std_vs_' + feat, N=0))
             jobs.append(dict(common, kind='c17_display', name='diff_display_id', op='diff_display_id', N=0))
+            if feat == 'all':
+                for N in range(0, 4): jobs.append(dict(common, kind='c17_par_iter', name='par_iter_slice', op='par_iter_slice', N=N))
             nm = 3 if tier == 'quick' else 4
             for N in range(0, nm + 1):
                 for op in MUTATORS:
@@ -220,6 +224,18 @@ def pretty_jobs(prop, tier):
         if tier != 'quick':
             for x in (1, 2, 3, 4):
                 for alt in (0, 1): jobs.append(J(4, trait, fix_x=x, alt=alt, rset=[0, 1, 4]))
+    # deep trees: ONE tree of 5 / 6 nodes printed from its root (slots numbered parent-before-child, first child right after its
+    # parent), renderings `a` / `a\nb` per node symbolic; partitioned by the parents of slots 3.. (seed C14-h needs depth 3 under a
+    # last child, i.e. six nodes).  quick: N = 5 all four modes, N = 6 Display plain; thorough: N = 5 and N = 6 in all four modes.
+    for trait in ('Display', 'Debug'):
+        for alt in (0, 1):
+            for p3 in (1, 2):
+                jobs.append(J(5, trait, fix_x=1, alt=alt, rset=[0, 1], family='tree', fix_parent={'3': p3}, op='pretty_%s_tree5' % trait.lower()))
+            if tier == 'quick' and not (trait == 'Display' and alt == 0): continue
+            for p3 in (1, 2):
+                for p4 in (1, 2, 3):
+                    for p5 in (1, 2, 3, 4):
+                        jobs.append(J(6, trait, fix_x=1, alt=alt, rset=[0, 1], family='tree', fix_parent={'3': p3, '4': p4, '5': p5}, op='pretty_%s_tree6' % trait.lower()))
     return jobs
 
 
